@@ -116,3 +116,19 @@ func VH_G_ProgressEnqueue() {
 	vx.Assert(done >= vhMin64(int64(cfg.TaskBatchSize), mu), "C11:dispatch-makes-progress")
 	vx.Reach("done")
 }
+
+// VH_G_Registered (C11): the progress lemmas above are about five coroutine constructors; this is the wiring
+// that makes them the server's behaviour: the real registration block of cmd/serve (read from its SSA, like the
+// request table the kernel double dispatches through) adds each of the five as a background coroutine exactly once.
+func VH_G_Registered() {
+	vx.Assert(vx.ServeRegistersBackground(TimeoutPromises) == 1, "C11:serve-registers-the-promise-timeout-sweep")
+	vx.Assert(vx.ServeRegistersBackground(SchedulePromises) == 1, "C11:serve-registers-the-schedule-sweep")
+	vx.Assert(vx.ServeRegistersBackground(TimeoutLocks) == 1, "C11:serve-registers-the-lock-sweep")
+	vx.Assert(vx.ServeRegistersBackground(EnqueueTasks) == 1, "C11:serve-registers-the-dispatch-cycle")
+	vx.Assert(vx.ServeRegistersBackground(TimeoutTasks) == 1, "C11:serve-registers-the-task-lease-sweep")
+	// and the default configuration lets each of them do something: a sweep reads at most its batch size of rows
+	for _, f := range []string{"PromiseBatchSize", "ScheduleBatchSize", "TaskBatchSize", "CoroutineMaxSize", "SubmissionBatchSize", "CompletionBatchSize"} {
+		vx.Assert(vx.Atoi(vx.FieldTag((*system.Config)(nil), f, "default")) >= 1, "C11:default-"+f+"-is-positive")
+	}
+	vx.Reach("done")
+}
